@@ -457,9 +457,9 @@ def p_C17(ctx):
         flow_model(ctx, "MC_MillerToy", workers=6, timeout=3600, xmx="6g", label="MC_MillerToy")
 
 
-def flow_dual(ctx, suite, nq, nt, chunk, extra=(), label=None):
+def flow_dual(ctx, suite, nq, nt, chunk, extra=(), label=None, need=None):
     """C18: the same inputs through the release and the debug-assertion build; identical traces, both accepted."""
-    a = flow_trace(ctx, suite, nq, nt, profile="release", chunk=chunk, extra=extra, label=label)
+    a = flow_trace(ctx, suite, nq, nt, profile="release", chunk=chunk, extra=extra, label=label, need=need)
     n = nq if ctx.quick() else nt
     b = f"{ctx.dir}/{label or suite}-dev.ndjson"
     ex = list(extra) + ["--pool", pool_file()]
@@ -476,14 +476,14 @@ def p_C18(ctx):
     flow_dual(ctx, "fp", 6000, 100000, 6000, extra=["--focus", "nosweep"])
     flow_dual(ctx, "fq2", 3000, 50000, 3000, extra=["--focus", "nosweep"])
     flow_dual(ctx, "conv", 10 ** 9, 10 ** 9, 4000)
-    flow_dual(ctx, "sqrt", 800, 8000, 400)
+    flow_dual(ctx, "sqrt", 3900, 9000, 400, need={"f2.sqrt": 1400})
     flow_dual(ctx, "decode", 10 ** 9, 10 ** 9, 700)
     flow_dual(ctx, "affine", 10 ** 9, 10 ** 9, 600, extra=["--in", tw])
-    flow_dual(ctx, "group", 900, 12000, 300)
-    flow_dual(ctx, "encode", 2100, 6000, 300)
+    flow_dual(ctx, "group", 5600, 14000, 400, need={"g.laws": 15, "g.mul": 15})
+    flow_dual(ctx, "encode", 3000, 7000, 300, need={"g.encode": 2900})
     flow_dual(ctx, "gt", 120, 1500, 60, extra=["--focus", "nosweep"])
-    flow_dual(ctx, "pairing", 640, 1500, 40, extra=["--focus", "agree"], label="pairing-agree")
-    flow_dual(ctx, "pairing", 60, 600, 24, extra=["--focus", "laws"], label="pairing-laws")
+    flow_dual(ctx, "pairing", 1500, 3500, 50, extra=["--focus", "agree"], label="pairing-agree", need={"prep.reuse": 8})
+    flow_dual(ctx, "pairing", 900, 2000, 40, extra=["--focus", "laws"], label="pairing-laws", need={"pair.laws": 80})
     flow_dual(ctx, "tower", 100, 1000, 50)
     flow_dual(ctx, "gmachine", 300, 3000, 10 ** 9, extra=["--focus", "pair"], label="gmachine")
     flow_dual(ctx, "fmachine", 1500, 15000, 10 ** 9, label="fmachine")
